@@ -229,7 +229,7 @@ def t_dlat(grid, name):
         out[var] = (w, int_const(v.args[1]))
     r = body[4]
     if not (isinstance(r, ast.Return) and isinstance(r.value, ast.BinOp) and isinstance(r.value.op, ast.Add)
-            and getattr(r.value.left, 'id', None) == 'x_lm1' and getattr(r.value.right, 'id', None) == 'x_lp1'):
+            and sorted([getattr(r.value.left, 'id', None) or '', getattr(r.value.right, 'id', None) or '']) == ['x_lm1', 'x_lp1']):
         raise Gap('%s: return is not x_lm1 + x_lp1' % name)
     return out
 
